@@ -174,6 +174,10 @@ func (*KessokuSet) kessokuPattern() {}
 type KessokuProvide struct {
 	FuncExpr  ast.Expr
 	SourcePos token.Pos
+	// Synthesized reports that FuncExpr was built by the transformer with the
+	// import names of the output file (not copied from a source file), so its
+	// package identifiers must not be looked up in a source file's imports.
+	Synthesized bool
 }
 
 func (*KessokuProvide) kessokuPattern() {}
